@@ -23,16 +23,24 @@ def b64u(b):
     return base64.urlsafe_b64encode(b).decode().rstrip('=')
 
 
-def judge_posts(run, res):
+def judge_posts(run, res, one_cert_per_ca=False):
     """Applies the CA-side verdict fields of every POST."""
     known_urls = set()
     for r in run.ca_log:
         if r.get('kind') == 'newAccount' and r.get('location'):
             known_urls.add(r['location'])
     nonces_seen = {}
+    # account URLs the client has been told are replaced: (ca, old url) -> seq of the newAccount answer that gave it another URL
+    superseded = {}
+    urls_of_ca = {}
     for r in run.ca_log:
         if r.get('method') != 'POST':
             continue
+        if one_cert_per_ca and r.get('kind') == 'newAccount' and r.get('location') and r.get('status') in (200, 201):
+            for old in urls_of_ca.get(r.get('ca'), []):
+                if old != r['location']:
+                    superseded.setdefault((r.get('ca'), old), r.get('seq'))
+            urls_of_ca.setdefault(r.get('ca'), []).append(r['location'])
         res['posts'] += 1
         res['kinds'][r.get('kind')] = res['kinds'].get(r.get('kind'), 0) + 1
         alg = (r.get('protected') or {}).get('alg')
@@ -40,6 +48,11 @@ def judge_posts(run, res):
         v = r.get('v') or {}
         bad = [k for k, ok in v.items() if ok is False]
         if 'kid_known' in bad and (r.get('protected') or {}).get('kid') in known_urls:
+            kid = (r.get('protected') or {}).get('kid')
+            if (r.get('ca'), kid) in superseded:
+                # ... unless the client has since registered again on this CA and was given another account URL
+                res['problems'].append(('jws-kid_known', '%s request #%d names the account URL %s although request #%d (newAccount) had already answered with a new one' % (
+                    r.get('kind'), r.get('seq'), kid, superseded[(r.get('ca'), kid)])))
             bad.remove('kid_known')     # an account this CA created and was told to forget: not the client's fault
             res['forgotten_seen'] += 1
         probs = [p for p in (r.get('problems') or [])]
@@ -142,7 +155,7 @@ def lifecycle_case(case):
     run = S.run_phases('C04', 'l%d' % case['i'], phases, plan0=plan)
     res = new_res(case)
     try:
-        judge_posts(run, res)
+        judge_posts(run, res, one_cert_per_ca=True)
         res['phases_done'] = len([p for p in run.phases if not p['timed_out']])
         succ = len(S.successes(run.hooks))
         res['successes'] = succ
